@@ -70,6 +70,16 @@ def sv_program(rng):
         good = f"goal gb = new {s_}.P{rng.randrange(n_pred)}(a: 2.0, start: {num_text(base + 20)}, end: {num_text(base + 26)}{dur});"
         brs = [bad, good] if rng.random() < 0.5 else [good, bad]
         lines.append("{ " + brs[0] + " } or { " + brs[1] + " }")
+    # two goals with CONSTANT parameters (duration included) that collide with each other, below a real choice: nothing about
+    # them changes value when the branch is chosen except their being active
+    if rng.random() < 0.3:
+        s_ = rng.choice(insts)
+        k = rng.randrange(n_pred)
+        base = 300 + 40 * rng.randint(0, 2)
+        lines.insert(0, "predicate Qz() {}")
+        lines.append("{ " + f"goal za = new {s_}.P{k}(a: 1.0, start: {num_text(base)}, end: {num_text(base + 10)}, duration: 10.0); "
+                     + f"goal zb = new {s_}.P{rng.randrange(n_pred)}(a: 2.0, start: {num_text(base + 5)}, end: {num_text(base + 15)}, duration: 10.0);"
+                     + " } or { goal zq = new Qz(); } [10.0]")
     # some relative orderings consistent with the plant
     for _ in range(rng.randint(0, 3)):
         a, b = rng.sample(atoms, 2) if len(atoms) >= 2 else (atoms[0], atoms[0])
@@ -134,6 +144,15 @@ def rr_program(rng):
             good = f"goal ub = new {r}.Use(amount: {num_text(min(c, over))}, start: {num_text(base + 20)}, end: {num_text(base + 26)}{dur});"
         brs = [bad, good] if rng.random() < 0.5 else [good, bad]
         lines.append("{ " + brs[0] + " } or { " + brs[1] + " }")
+    # two uses with CONSTANT parameters (duration included) that exceed the capacity together, below a real choice
+    if rng.random() < 0.3:
+        r = rng.choice(list(caps))
+        c = caps[r]
+        base = 400 + 40 * rng.randint(0, 2)
+        lines.insert(0, "predicate Qz() {}")
+        lines.append("{ " + f"goal za = new {r}.Use(amount: {num_text(c)}, start: {num_text(base)}, end: {num_text(base + 10)}, duration: 10.0); "
+                     + f"goal zb = new {r}.Use(amount: {num_text(c / 2 + F(1, 2))}, start: {num_text(base + 5)}, end: {num_text(base + 15)}, duration: 10.0);"
+                     + " } or { goal zq = new Qz(); } [10.0]")
     # a lone use that only fits some of the instances: an instance with a single (candidate) atom must be swept too
     if rng.random() < 0.3:
         cs = F(rng.choice([1, 2, 3]))
